@@ -93,6 +93,8 @@ class ConsistentImpliesReadable(WorkerBase):
 def tasks(tier):
     out = [ConsistentImpliesReadable(2), ConsistentImpliesReadable(3)]
     out += worker_tasks("C20", ["sound"])
+    from props.taste_parents import parent_tasks
+    out += parent_tasks("C20")
     for nd in (2, 3):
         r = Reader("mp_read_box_slice_field", nd, "slice:::")
         r.prop = "C20"
